@@ -415,10 +415,12 @@ where
             match self.table.get_direction_for_insert(idx, &prefix) {
                 DirectionForInsert::Enter { next, .. } => idx = next,
                 DirectionForInsert::Reached if self.table[idx].value.is_some() => {
+                    let (node, count) = self.table.node_and_count_mut(idx);
                     return Entry::Occupied(OccupiedEntry {
-                        node: &mut self.table[idx],
+                        node,
                         prefix,
-                    })
+                        count,
+                    });
                 }
                 direction => {
                     return Entry::Vacant(VacantEntry {
